@@ -1338,6 +1338,9 @@ class Interp:
                 self.call_func(post, [obj], {})
             return obj
         if args or kwargs:
+            if any(isinstance(c, External) and (c.name in EXC or c.name.endswith(("Error", "Exception"))) for c in cls.mro):
+                obj.f["args"] = tuple(args)   # BaseException.__init__(*args)
+                return obj
             raise PyRaise(BuiltinExcValue(EXC["TypeError"], ("ctor args", cls.name)))
         return obj
 
